@@ -149,20 +149,22 @@ class FakeSSLModule:
         return getattr(_real_ssl, name)
 
 
-_saved = {}
+_patch = None
 
 
 def install(net, tls=True):
-    _saved["socket"] = lib._http.socket
-    _saved["ssl_http"] = lib._http.ssl
-    lib._http.socket = FakeSocketModule(net)
+    global _patch
+    from . import seams
+    uninstall()
+    pairs = seams.socket_pairs(FakeSocketModule(net))
     if tls:
-        lib._http.ssl = FakeSSLModule(net)
+        pairs += seams.ssl_pairs(FakeSSLModule(net))
+    _patch = seams.Patch().apply(pairs)
     return net
 
 
 def uninstall():
-    if "socket" in _saved:
-        lib._http.socket = _saved.pop("socket")
-    if "ssl_http" in _saved:
-        lib._http.ssl = _saved.pop("ssl_http")
+    global _patch
+    if _patch is not None:
+        _patch.undo()
+        _patch = None
